@@ -50,6 +50,9 @@ func renderPlan(plan []PlanItem, primary bool, mode int) []string {
 			if dash == "" {
 				dash = "--" // occurrence written as the lonesome dash alias
 			}
+			if len([]rune(name)) > 1 && attach != "sd" {
+				dash = "--" // canonical spelling of a multi-letter primary name (in Normal mode -name and --name are the same option)
+			}
 			if mode != ModeNormal && len([]rune(name)) > 1 {
 				dash = "--"
 				if attach == "sd" {
@@ -85,7 +88,7 @@ func goodValue(t *rapid.T, o *OptSpec, label string) string {
 	case 'm':
 		return rapid.SampledFrom([]string{"k=v", "a=b", "k=v2", "x=y=z"}).Draw(t, label)
 	}
-	return rapid.SampledFrom([]string{"foo", "bar", "a b", "x=y", "list", "é"}).Draw(t, label)
+	return rapid.SampledFrom([]string{"foo", "bar", "a b", "x=y", "list", "é", ":8080", "=x", "::1", "a:b", "k=:v"}).Draw(t, label)
 }
 
 func genOcc(t *rapid.T, spec *ProgSpec, lv *Level, key string) *Occ {
